@@ -347,7 +347,18 @@ func (j *judge) idToken(id, access string) {
 	} else {
 		t0, t1 := j.t.T0.Unix(), j.t.T1.Unix()+1
 		if d := exp - iat; abs64(d-(x.IDTTL+2*skew)) > 2 {
-			j.fail("id_token:lifetime", "exp-iat=%ds, configured lifetime %ds + 2 x skew %ds = %ds (tolerance 2s)", d, x.IDTTL, skew, x.IDTTL+2*skew)
+			// exp and iat are two readings of the clock within one request. A request that took seconds (a stalled
+			// process; an overlapped request that the harness parked while the other one was served) may have spent them
+			// between the two readings: a deviation within the request's own duration decides nothing (DESIGN section 4).
+			var slack int64
+			if dur := j.t.T1.Sub(j.t.T0); dur >= time.Second {
+				slack = int64(dur/time.Second) + 1
+			}
+			if abs64(d-(x.IDTTL+2*skew)) <= 2+slack {
+				run.Inconclusive("request_took_longer_than_the_lifetime_tolerance")
+			} else {
+				j.fail("id_token:lifetime", "exp-iat=%ds, configured lifetime %ds + 2 x skew %ds = %ds (tolerance 2s; the request took %v)", d, x.IDTTL, skew, x.IDTTL+2*skew, j.t.T1.Sub(j.t.T0).Round(time.Millisecond))
+			}
 		}
 		if iat > t1+2 || iat < t0-skew-2 {
 			j.fail("id_token:iat", "iat=%d outside [%d,%d] = request time minus at most the skew", iat, t0-skew-2, t1+2)
